@@ -367,6 +367,8 @@ class Ctx:
                     self.assume(z3.Select(self.field_array("$len"), Z.Val.id(t)) <= self.E.bounded)
             elif isinstance(ty, TTuple):
                 self.assume(z3.Select(self.field_array("$len"), Z.Val.id(t)) == len(ty.elems))
+            elif isinstance(ty, TMap):
+                self.assume(z3.Select(self.field_array("$len"), Z.Val.id(t)) >= 0)
         return SV(t, ty)
 
     def assume_class(self, t, ty):
